@@ -94,7 +94,7 @@ class Session:
             if isinstance(ex, (KeyboardInterrupt, SystemExit)):
                 raise
             self.open_error = err_class(ex)
-            self.detail = self.detail or repr(ex)[:200]
+            self.detail = self.detail or repr(ex)[:300]
         return self.resp
 
     # ---- one operation
@@ -112,10 +112,11 @@ class Session:
     def _gen(self, kind, n):
         if kind not in self.gens:
             r, d = self.resp, self.decode
+            amt = n or None               # n = 0 stands for amt=None (stream(0) / read_chunked(0) never make progress)
             if kind == "stream":
-                g = r.stream(n, decode_content=d)
+                g = r.stream(amt, decode_content=d)
             elif kind == "chunked":
-                g = r.read_chunked(n, decode_content=d)
+                g = r.read_chunked(amt, decode_content=d)
             else:
                 g = iter(r)
             self.gens[kind] = g
@@ -158,7 +159,7 @@ class Session:
                 raise
             if isinstance(ex, ValueError) and str(ex).startswith("unknown op"):
                 raise
-            self.detail = self.detail or repr(ex)[:200]
+            self.detail = self.detail or repr(ex)[:300]
             self.events.append({"op": op, "n": n, "len": 0, "off": -2, "err": err_class(ex), "end": False})
         return self.events[-1]
 
@@ -211,10 +212,25 @@ class Session:
             self.net.__exit__()
 
 
-def run_case(case: dict, ops: list, drain=None, preload: bool = False, built: dict | None = None, cap: int = 400000):
+class Deadline(BaseException):
+    """A single response took longer than the per-case deadline: recorded as the exception of the current call."""
+
+
+def _alarm(signum, frame):
+    raise Deadline("per-case deadline exceeded")
+
+
+def run_case(case: dict, ops: list, drain=None, preload: bool = False, built: dict | None = None, cap: int = 400000,
+             deadline: float = 120.0):
     """Execute `ops` ([(op, n)]) on a fresh response for `case`; then, unless a call ended or raised, keep
     calling `drain` (op, n) until one does.  Returns the trace record for spec/Body_Trace.tla."""
+    import signal
+    import threading
     s = Session(case, built)
+    armed = threading.current_thread() is threading.main_thread()
+    if armed:
+        signal.signal(signal.SIGALRM, _alarm)
+        signal.setitimer(signal.ITIMER_REAL, deadline)
     try:
         done = False
         if preload:
@@ -243,4 +259,6 @@ def run_case(case: dict, ops: list, drain=None, preload: bool = False, built: di
                 "conn": {"second": conn["second"], "firstopen": bool(conn["firstopen"])}, "final": True,
                 "detail": s.detail, "second_err": conn["second_err"]}
     finally:
+        if armed:
+            signal.setitimer(signal.ITIMER_REAL, 0)
         s.close()
